@@ -58,6 +58,11 @@ def run_pair(task):
             sa, _ = world.make_state({a: SymBool(va[a]) for a in atoms_a}, {f: SymReal(xa[f]) for f in fl_a})
             fb = list(reversed(fl_b)) if task["reverse_b"] else list(fl_b)
             sb, _ = world.make_state({a: SymBool(vb[a]) for a in order_b}, {f: SymReal(xb[f]) for f in fb})
+            if task.get("empty_keys"):
+                # states built by the parsers and by delete effects hold (possibly empty) sets for predicates without facts
+                for s_ in (sa, sb):
+                    for pred in world.domain.predicates.values():
+                        s_.state_predicates.setdefault(pred.untyped_representation, set())
             out = {}
             out["eq_ab"] = bool(sa == sb)
             out["eq_ba"] = bool(sb == sa)
@@ -132,6 +137,10 @@ def concrete_pair(task, A, B, XA, XB):
     sa, _ = world.make_state({a: A[a] for a in atoms_a}, dict(XA))
     fb = list(reversed(task["fluents_b"])) if task["reverse_b"] else list(task["fluents_b"])
     sb, _ = world.make_state({a: B[a] for a in order_b}, {f: XB[f] for f in fb})
+    if task.get("empty_keys"):
+        for s_ in (sa, sb):
+            for pred in world.domain.predicates.values():
+                s_.state_predicates.setdefault(pred.untyped_representation, set())
     spec = all(A[a] == B[a] for a in atoms_a) and set(XA) == set(XB) and all(XA[f] == XB[f] for f in XA)
     out = {"spec_equal": spec}
     try:
@@ -192,7 +201,8 @@ def tasks_for(tier):
         for fa, fb in ((FLUENTS[:2], FLUENTS[:2]), (FLUENTS[1:], FLUENTS[1:]), (FLUENTS[:2], FLUENTS[:1]), ([], []),
                        (FLUENTS, FLUENTS) if tier == "thorough" else (FLUENTS[2:], FLUENTS[2:])):
             for rev in (False, True):
-                tasks.append({"atoms": atoms, "fluents_a": list(fa), "fluents_b": list(fb), "reverse_b": rev})
+                tasks.append({"atoms": atoms, "fluents_a": list(fa), "fluents_b": list(fb), "reverse_b": rev,
+                              "empty_keys": rev != (len(fa) % 2 == 0)})
     return tasks
 
 
